@@ -274,6 +274,45 @@ pub fn gen_c06(out: &mut Out, rng: &mut Rng, thorough: bool) {
         }
         monitor_line(out, &line);
     }
+    gen_c06_after_partial(out, rng, thorough);
+}
+
+/// "after any sequence of earlier calls": the earlier call ended half-way through a reply
+/// (abandoned, transport error, or a pending tail) whose head looked like the head of the
+/// *next* call's reply; the next call then gets a complete reply under a foreign header
+fn gen_c06_after_partial(out: &mut Out, rng: &mut Rng, thorough: bool) {
+    for i in 0..(if thorough { 6000 } else { 600 }) {
+        let kind = if i % 4 == 3 { "rtu" } else { "tcp" };
+        let unit = rng.u8();
+        let n = rng.range(1, 10);
+        let pdu_of = |rng: &mut Rng| spec::response_bytes(&Response::ReadHoldingRegisters(rng.words(n))).unwrap();
+        // the fragment: header of call #2 (tid 1, same unit), cut anywhere from the complete
+        // head to one byte before the end
+        let frag = frame(kind, 1, unit, &pdu_of(rng));
+        let head = if kind == "tcp" { 7 } else { 3 };
+        let k = rng.range(head, frag.len() - 1);
+        let (ftid, funit) = match rng.below(3) {
+            0 => (rng.u16() | 2, unit),
+            1 => (1, unit ^ (1 << rng.below(8))),
+            _ => (rng.u16() | 2, unit.wrapping_add(1 + rng.u8() % 254)),
+        };
+        let foreign = frame(kind, ftid, funit, &pdu_of(rng));
+        let how = match rng.below(3) {
+            0 => format!("b=2 r=d{},p,p", hex_raw(&frag[..k])),
+            1 => format!("r=d{},xk{}", hex_raw(&frag[..k]), rng.range(1, 5)),
+            _ => format!("b=3 r=d{},p,p,p", hex_raw(&frag[..k])),
+        };
+        monitor_line(
+            out,
+            &format!(
+                "cli {kind} {} | call RHR:0000:{} {how} | call RHR:0102:{} r=d{}",
+                hex8(unit),
+                hex16(n as u16),
+                hex16(n as u16),
+                hex_raw(&foreign)
+            ),
+        );
+    }
 }
 
 pub fn mon_c06(out: &mut Out, l: &str, r: &str) {
@@ -378,6 +417,22 @@ pub fn gen_c10(out: &mut Out, rng: &mut Rng, thorough: bool) {
         }
         monitor_line(out, &line);
     }
+    // "regardless of how earlier calls ended": every way a send can fail after (part of) the
+    // frame - and with it the id - has reached the transport, followed by ordinary calls
+    for _ in 0..(if thorough { 4000 } else { 400 }) {
+        let mut line = String::from("cli tcp -");
+        for _ in 0..rng.range(2, 12) {
+            match rng.below(8) {
+                0 => line.push_str(&format!(" | call RSI w=a{},xk{}", rng.range(1, 7), rng.range(1, 5))),
+                1 => line.push_str(&format!(" | call RSI w=a8 f=xk{}", rng.range(1, 5))),
+                2 => line.push_str(&format!(" | call RSI w=a{},z", rng.range(1, 7))),
+                3 => line.push_str(&format!(" | call RSI w=p,a8 f=p,xk{}", rng.range(1, 5))),
+                4 => line.push_str(&format!(" | call RSI w=xk{}", rng.range(1, 5))),
+                _ => line.push_str(" | call RSI r=e"),
+            }
+        }
+        monitor_line(out, &line);
+    }
 }
 
 /// the history up to and including op `i` (a failing history replays from its prefix)
@@ -412,12 +467,12 @@ pub fn mon_c10(out: &mut Out, l: &str, r: &str) {
                 None => unwrapped = u64::from(tid),
                 Some(prev) => {
                     let d = u64::from(tid.wrapping_sub(prev));
-                    out.check(d >= 1, || format!("transaction id {tid:04X} transmitted in call {i} repeats the previous one"), &prefix_line(l, i));
+                    out.check_with(d >= 1, || format!("transaction id {tid:04X} transmitted in call {i} repeats the previous one"), || prefix_line(l, i));
                     unwrapped += d;
                 }
             }
             let ok = unwrapped + 1 <= calls_so_far;
-            out.check(ok, || format!("transaction id {tid:04X} transmitted in call {i}: {} ids used up by {calls_so_far} calls", unwrapped + 1), &prefix_line(l, i));
+            out.check_with(ok, || format!("transaction id {tid:04X} transmitted in call {i}: {} ids used up by {calls_so_far} calls", unwrapped + 1), || prefix_line(l, i));
             if !ok {
                 return;
             }
@@ -436,7 +491,7 @@ pub fn mon_c10(out: &mut Out, l: &str, r: &str) {
             let w = written(res.get(i).copied().unwrap_or(""));
             if w.len() >= 2 {
                 let tid = u16::from(w[0]) << 8 | u16::from(w[1]);
-                out.check(u64::from(tid) == idx % 65536, || format!("call number {idx} carries transaction id {tid:04X}"), &prefix_line(l, i));
+                out.check_with(u64::from(tid) == idx % 65536, || format!("call number {idx} carries transaction id {tid:04X}"), || prefix_line(l, i));
             }
             idx += 1;
         }
@@ -1003,6 +1058,53 @@ pub fn gen_c20(out: &mut Out, rng: &mut Rng, thorough: bool) {
                     }
                 }
             }
+            if kind == "tcp" {
+                illformed_typed_replies(out, rng, &head, kind, unit, if thorough { 600 } else { 150 });
+            }
+        }
+    }
+}
+
+/// ill-formed replies under the right header and the right function code: surplus
+/// bytes, a PDU beyond the size limit, truncation, a byte count that does not
+/// match – a typed method must turn every one of them into an error, not a panic
+pub fn illformed_typed_replies(out: &mut Out, rng: &mut Rng, head: &str, kind: &str, unit: u8, n: usize) {
+    for _ in 0..n {
+        let a = rng.u16();
+        let cnt = rng.range(1, 20) as u16;
+        let cs = rng.bits_in(1, 30);
+        let ws = rng.words_in(1, 10);
+        let cases: Vec<(TypedOp, Response)> = vec![
+            (TypedOp::Rc(a, cnt), Response::ReadCoils(rng.bits(usize::from(cnt).div_ceil(8) * 8))),
+            (TypedOp::Rdi(a, cnt), Response::ReadDiscreteInputs(rng.bits(usize::from(cnt).div_ceil(8) * 8))),
+            (TypedOp::Rhr(a, cnt), Response::ReadHoldingRegisters(rng.words(usize::from(cnt)))),
+            (TypedOp::Rir(a, cnt), Response::ReadInputRegisters(rng.words(usize::from(cnt)))),
+            (TypedOp::Rwm(a, cnt, a, ws.clone()), Response::ReadWriteMultipleRegisters(rng.words(usize::from(cnt)))),
+            (TypedOp::Wsc(a, true), Response::WriteSingleCoil(a, true)),
+            (TypedOp::Wsr(a, cnt), Response::WriteSingleRegister(a, cnt)),
+            (TypedOp::Wmc(a, cs.clone()), Response::WriteMultipleCoils(a, cs.len() as u16)),
+            (TypedOp::Wmr(a, ws.clone()), Response::WriteMultipleRegisters(a, ws.len() as u16)),
+            (TypedOp::Mwr(a, 1, 2), Response::MaskWriteRegister(a, 1, 2)),
+        ];
+        for (op, rsp) in cases {
+            let good = spec::response_bytes(&rsp).unwrap();
+            let mut pdu = good.clone();
+            match rng.below(5) {
+                0 => pdu.extend(rng.bytes_in(1, 4)),
+                1 => {
+                    // beyond the PDU limit, byte count consistent with the length
+                    pdu.truncate(1);
+                    pdu.push(0xFC);
+                    pdu.extend(rng.bytes(252));
+                }
+                2 => {
+                    let k = rng.range(1, pdu.len() - 1);
+                    pdu.truncate(k);
+                }
+                3 if pdu.len() > 2 => pdu[1] = pdu[1].wrapping_add(1 + rng.u8() % 3),
+                _ => pdu.extend(rng.bytes(260)),
+            }
+            monitor_line(out, &format!("{head} | typed {} r=d{}", op.tok(), hex_raw(&frame(kind, 0, unit, &pdu))));
         }
     }
 }
